@@ -29,11 +29,15 @@ package tcplistener
 // forces a decision, at the end of the buffered data (ghost mlrend; -1 where that is not allowed): its verdict never depends
 // on how much of the following text happens to have arrived already.
 //@ ghost var mlrend int
+// mlrtest[p]: the tester said "record start" for text beginning at absolute position p (ghost; all false on entry)
+//@ ghost var mlrtest [1099511627776]bool
 //@ fieldspec multiLineReader.testRecordStart(s []byte) bool
 //@   requires[tested-text-ends-at-a-line-boundary] ref(s) == ref(cbuf) && off(s) >= off(cbuf) && (off(s) + len(s) == off(cbuf) + mlrend || (off(s) + len(s) < off(cbuf) + len(cbuf) && at(cbuf, off(s) + len(s)) == 10))
-//@   modifies nothing
+//@   modifies mlrtest[off(s)]
+//@   ghostset mlrtest[off(s)] := result
 //@ fieldspec multiLineReader.consumeRecord(s []byte)
 //@   requires[record-is-a-slice-of-the-buffer] ref(s) == ref(cbuf) && off(s) >= off(cbuf) && off(s) + len(s) <= off(cbuf) + len(cbuf)
+//@   requires[only-where-a-record-start-was-recognised] mlrtest[off(s)] || mlrtest[off(s) + len(s) + 1]
 //@   modifies mlrnext, mlrgap
 //@   ghostset mlrgap := mlrgap + (off(s) - off(cbuf) - mlrnext)
 //@   ghostset mlrnext := off(s) - off(cbuf) + len(s) + 1
@@ -42,8 +46,8 @@ package tcplistener
 // rest, moved to the front: no byte is lost, duplicated or reordered (the one newline after each record aside)
 //@ func (mlr *multiLineReader) processBuffer(bufferEnd int)
 //@   requires mlrshape(mlr) && mlrlines(mlr) && mlr.offsetAppend < bufferEnd && bufferEnd <= len(mlr.buffer)
-//@   define   cbuf === mlr.buffer && mlrnext == 0 && mlrgap == 0 && mlrend == -1
-//@   modifies mlr.offsetAppend, mlr.offsetSearch, mlr.buffer[:], mlrnext, mlrgap
+//@   define   cbuf === mlr.buffer && mlrnext == 0 && mlrgap == 0 && mlrend == -1 && forall p int :: !mlrtest[p]
+//@   modifies mlr.offsetAppend, mlr.offsetSearch, mlr.buffer[:], mlrnext, mlrgap, mlrtest
 //@   ensures[shape-kept] mlrshape(mlr) && len(mlr.buffer) - mlr.offsetAppend >= mlr.softRecordLimit
 //@   ensures[lines-kept] mlrlines(mlr)
 //@   ensures[nothing-lost-unless-overflow] mlr.offsetAppend != 0 ==> mlrgap == 0 && mlr.offsetAppend == bufferEnd - mlrnext
@@ -54,8 +58,8 @@ package tcplistener
 
 //@ func (mlr *multiLineReader) checkOverflow()
 //@   requires mlrshape(mlr) && mlrlines(mlr)
-//@   define   cbuf === mlr.buffer && mlrend == mlr.offsetAppend
-//@   modifies mlr.offsetAppend, mlr.offsetSearch, mlrnext, mlrgap
+//@   define   cbuf === mlr.buffer && mlrend == mlr.offsetAppend && forall p int :: !mlrtest[p]
+//@   modifies mlr.offsetAppend, mlr.offsetSearch, mlrnext, mlrgap, mlrtest
 //@   ensures[shape-kept] mlrshape(mlr) && len(mlr.buffer) - mlr.offsetAppend >= mlr.softRecordLimit
 //@   ensures[lines-kept] mlrlines(mlr)
 //@   ensures[untouched-when-there-is-room] old(len(mlr.buffer) - mlr.offsetAppend >= mlr.softRecordLimit) ==> mlr.offsetAppend == old(mlr.offsetAppend) && mlr.offsetSearch == old(mlr.offsetSearch) && mlrnext == old(mlrnext) && mlrgap == old(mlrgap)
@@ -63,21 +67,21 @@ package tcplistener
 
 //@ func (mlr *multiLineReader) Read() error
 //@   requires mlrok(mlr)
-//@   define   cbuf === mlr.buffer && mlrnext == 0 && mlrgap == 0 && mlrend == -1
-//@   modifies mlr.offsetAppend, mlr.offsetSearch, mlr.buffer[:], mlrnext, mlrgap
+//@   define   cbuf === mlr.buffer && mlrnext == 0 && mlrgap == 0 && mlrend == -1 && forall p int :: !mlrtest[p]
+//@   modifies mlr.offsetAppend, mlr.offsetSearch, mlr.buffer[:], mlrnext, mlrgap, mlrtest
 //@   ensures[shape-kept] mlrshape(mlr) && len(mlr.buffer) - mlr.offsetAppend >= mlr.softRecordLimit
 //@   ensures[lines-kept] mlrlines(mlr)
 
 //@ func (mlr *multiLineReader) Flush()
 //@   requires mlrok(mlr)
-//@   define   cbuf === mlr.buffer && mlrnext == 0 && mlrgap == 0 && mlrend == -1
-//@   modifies mlr.offsetAppend, mlr.offsetSearch, mlr.buffer[:], mlrnext, mlrgap
+//@   define   cbuf === mlr.buffer && mlrnext == 0 && mlrgap == 0 && mlrend == -1 && forall p int :: !mlrtest[p]
+//@   modifies mlr.offsetAppend, mlr.offsetSearch, mlr.buffer[:], mlrnext, mlrgap, mlrtest
 //@   ensures[shape-kept] mlrshape(mlr) && len(mlr.buffer) - mlr.offsetAppend >= mlr.softRecordLimit
 //@   ensures[lines-kept] mlrlines(mlr)
 //@   ensures[partial-last-line-kept] mlr.offsetAppend == old(mlr.offsetAppend) - old(mlr.offsetSearch) && forall k int :: 0 <= k && k < mlr.offsetAppend ==> mlr.buffer[k] == old(mlr.buffer[mlr.offsetAppend - now(mlr.offsetAppend) + k])
 
 //@ func (mlr *multiLineReader) FlushAll()
 //@   requires mlrok(mlr)
-//@   define   cbuf === mlr.buffer && mlrnext == 0 && mlrgap == 0 && mlrend == mlr.offsetAppend
-//@   modifies mlr.offsetAppend, mlr.offsetSearch, mlrnext, mlrgap
+//@   define   cbuf === mlr.buffer && mlrnext == 0 && mlrgap == 0 && mlrend == mlr.offsetAppend && forall p int :: !mlrtest[p]
+//@   modifies mlr.offsetAppend, mlr.offsetSearch, mlrnext, mlrgap, mlrtest
 //@   ensures[invariant-kept] mlrok(mlr) && mlr.offsetAppend == 0
